@@ -21,6 +21,13 @@ func UnmarshalJSON(src io.Reader) (Canonicalable, error) {
 	if err != nil {
 		return nil, err
 	}
+	if res == nil {
+		return nil, errors.New("unexpected delimiter")
+	}
+	// the source must be exactly one complete JSON value
+	if _, err := dec.Token(); err != io.EOF {
+		return nil, errors.New("unexpected data after top-level value")
+	}
 
 	return res, nil
 }
@@ -48,7 +55,8 @@ func CanonicalJSON(src io.Reader) ([]byte, error) {
 func handleNextToken(dec *json.Decoder) (Canonicalable, error) {
 	t, err := dec.Token()
 	if err == io.EOF {
-		return nil, nil
+		// a value, or the end of an object or array, was expected
+		return nil, io.ErrUnexpectedEOF
 	}
 	if err != nil {
 		return nil, err
